@@ -9,7 +9,8 @@ one event string, in source order:
     set:<target>=<source>              assignment; both sides printed as dotted paths / call names / constants
 
 (`log().debug(...)` lines and comments are not events; an `if` contributes `if:<test>` followed by the
-events of its body and `end`.)  The Lean side states the list the model of `establish` / `close` mirrors
+events of its body and `end`; `a or b` / `a and b` tests are printed with their operands in source order;
+`raise E(...)` is `raise:E`.)  The Lean side states the list the model of `establish` / `close` mirrors
 (`Session.Shape.expected…`) and `Props.C06.handshake_shape` proves the generated lists equal to it, so a
 re-ordering of the handshake, a value taken from another place (temporary vs. granted id, where
 `activated` is set, which sequence number is stored) or a dropped step regenerates this file and the
@@ -40,6 +41,8 @@ def _path(n):
         return _path(n.left) + op + _path(n.comparators[0])
     if isinstance(n, ast.UnaryOp) and isinstance(n.op, ast.Not):
         return 'not ' + _path(n.operand)
+    if isinstance(n, ast.BoolOp):
+        return (' or ' if isinstance(n.op, ast.Or) else ' and ').join(_path(v) for v in n.values)
     return '<%s>' % type(n).__name__
 
 
@@ -77,6 +80,9 @@ def events(body):
             out.append('end')
         elif isinstance(s, ast.Return):
             out.append('return' + ('' if s.value is None else ':' + _path(s.value)))
+        elif isinstance(s, ast.Raise) and s.exc is not None and s.cause is None:
+            exc = s.exc.func if isinstance(s.exc, ast.Call) else s.exc
+            out.append('raise:' + _path(exc))
         else:
             out.append('other:' + type(s).__name__)
     return out
